@@ -27,6 +27,12 @@ Proof.
   - rewrite IH. destruct (Nat.eqb y a) eqn:E2; simpl; [|reflexivity].
     apply Nat.eqb_eq in E2. subst. rewrite E. reflexivity.
 Qed.
+Lemma vmem_norm x s : vmem x (vnorm s) = vmem x s.
+Proof.
+  induction s as [|a s IH]; simpl; [reflexivity|].
+  destruct (Nat.eqb x a) eqn:E; simpl; [reflexivity|].
+  rewrite vmem_remove, IH. rewrite Nat.eqb_sym, E. reflexivity.
+Qed.
 Lemma vsubset_spec a b : vsubset a b = true -> forall x, vmem x a = true -> vmem x b = true.
 Proof.
   unfold vsubset. rewrite forallb_forall. intros H x Hx. apply H. apply vmem_In. exact Hx.
@@ -125,7 +131,7 @@ Proof.
 Qed.
 
 Lemma lv_if n t b1 b2 o b c x :
-  lv_stmt n (SIf t b1 b2) o b c x = t_reads t ++ lv_block n b1 o b c x ++ lv_block n b2 o b c x.
+  lv_stmt n (SIf t b1 b2) o b c x = vnorm (t_reads t ++ lv_block n b1 o b c x ++ lv_block n b2 o b c x).
 Proof. simpl. rewrite !lv_blk_eq. reflexivity. Qed.
 Lemma iter_n_ext {A} (f g : A -> A) : (forall a, f a = g a) -> forall n a, iter_n n f a = iter_n n g a.
 Proof. intros H. induction n as [|n IH]; intros a; simpl; [reflexivity|]. rewrite H. apply IH. Qed.
@@ -281,6 +287,9 @@ Proof.
         -- eexists; split; [reflexivity|]. split; simpl; auto.
            apply agree_sym. eapply agree_set_left; [apply agree_sym; exact HA| |exact Hv]. auto.
       * (* opaque call *)
+        assert (HA' : agree (t_reads t ++ O ++ O) st st2).
+        { eapply agree_sub; [|exact HA]. intros x Hx. rewrite vmem_norm. exact Hx. }
+        clear HA. rename HA' into HA.
         assert (HL : forall x, vmem x O = true -> vmem x (t_reads t ++ O ++ O) = true).
         { intros x Hx. rewrite !vmem_app, Hx. rewrite orb_true_r. reflexivity. }
         pose proof (eval_test_agree _ o t st st2 HA) as HE.
@@ -309,6 +318,9 @@ Proof.
     inversion Hst; subst. eexists; split; [reflexivity|]. split; simpl; auto.
   - (* if *)
     apply ok_if in Hok. destruct Hok as [b1' [b2' [-> [Hk1 Hk2]]]]. rewrite lv_if in HA.
+    assert (HA' : agree (t_reads t ++ lv_block n b1' O B C X ++ lv_block n b2' O B C X) st st2).
+    { eapply agree_sub; [|exact HA]. intros x Hx. rewrite vmem_norm. exact Hx. }
+    clear HA. rename HA' into HA.
     assert (Es : forall dd, side dd (SIf t b1 b2) (SIf t b1' b2') = SIf t (side dd b1 b1') (side dd b2 b2'))
       by (intros []; reflexivity).
     rewrite Es in *. simpl in *.
@@ -453,7 +465,7 @@ Lemma lv_drop n e o b c x y :
   vmem y (lv_stmt n (drop_asg e) o b c x) = true -> vmem y (r_reads e) = true \/ vmem y o = true.
 Proof.
   destruct e as [w|z|t]; simpl; auto.
-  rewrite !vmem_app. intros H. repeat (apply orb_true_iff in H; destruct H as [H|H]); auto.
+  rewrite vmem_norm, !vmem_app. intros H. repeat (apply orb_true_iff in H; destruct H as [H|H]); auto.
 Qed.
 
 Lemma uv_line_live n b c xx y : forall l,
